@@ -71,13 +71,20 @@ class RangelistModel(object):
         
         rng_i=0
         while rng_i < len(self.range_l):
+            removed = False
             for r in other.range_l:
-                rng_i = self._intersect(
+                new_i = self._intersect(
                     self.range_l,
                     rng_i,
                     self.range_l[rng_i],
                     r)
-            rng_i += 1
+                if new_i < rng_i:
+                    # The target range was removed: its successor now
+                    # sits at rng_i and must be checked from the start
+                    removed = True
+                    break
+            if not removed:
+                rng_i += 1
     
     def _intersect(self,
                    ranges,
